@@ -201,6 +201,31 @@ def gen_world(rng):
                 files.append({"path": f"{D}/{nm}", "content": "nested content\n"})
                 entries.append({"path": f"{D}/{nm}", "kind": "nested-override", "c": [holder_r], "l": [expr_r], "reads": None, "shadowed": f"{D}/{nm}"})
         files.append({"path": f"{D}/REUSE.toml", "content": G.reuse_toml([nested_table])})
+    hardlinks = []
+    if rng.chance(0.2) and entries:
+        # a second name (hard link) for a file whose information lives in its .license companion: the information belongs
+        # to the name, so the other name is a covered file without any - wherever it is listed
+        src_e = rng.pick(entries)
+        expr_h = src_e["l"][0] if src_e["l"] else "MIT"
+        first, second = rng.pick([("hl/a_orig.json", "hl/z_copy.json"), ("hl/z_orig.json", "hl/a_copy.json"), ("hl/orig.json", "hl2/copy.json"),
+                                  ("orig.json", "hl/copy.json")])
+        files.append({"path": first, "content": '{"k": 1}\n'})
+        files.append({"path": first + ".license", "content": f"SPDX-FileCopyrightText: 2019 Link Owner\nSPDX-License-Identifier: {expr_h}\n"})
+        entries.append({"path": first, "kind": "dotlicense", "c": ["SPDX-FileCopyrightText: 2019 Link Owner"], "l": [expr_h], "reads": first + ".license",
+                        "shadowed": first})
+        hardlinks.append({"path": second, "target": first})
+        entries.append({"path": second, "kind": "hardlink", "c": [], "l": [], "reads": second, "implied_defect": True, "via_link": True})
+    many = 0
+    if glob_kind == "toml" and rng.chance(0.12):
+        # more binary files (by content, not by suffix) than the process may hold descriptors: each is opened, looked
+        # at and must be closed again
+        many = rng.randint(70, 110)
+        expr_m = rng.pick(G.VALID)
+        tables.append({"path": "blobs/**", "precedence": "closest", "SPDX-FileCopyrightText": "2011 Blob Owner", "SPDX-License-Identifier": expr_m})
+        for k in range(many):
+            pth = f"blobs/d{k % 3}/t{k:03d}.tbl"
+            files.append({"path": pth, "content": G.BINARY})
+            entries.append({"path": pth, "kind": "closest", "c": ["2011 Blob Owner"], "l": [expr_m], "reads": pth})
     if tables:
         files.append({"path": "REUSE.toml", "content": G.reuse_toml(tables)})
     if paras:
@@ -280,6 +305,10 @@ def gen_world(rng):
         if p:
             files.append({"path": p, "content": f"text of {i}\n"})
     world = {"files": files}
+    if hardlinks:
+        world["hardlinks"] = hardlinks
+    if many:
+        world["nofile"] = rng.pick([40, 48, 64])
     if rng.chance(0.35):
         # symlinks are never covered files: to a file, to a directory, dangling
         links = [{"path": "docs/latest", "target": "no-such-target"}, {"path": "src/linkdir", "target": "../docs"},
@@ -356,6 +385,8 @@ def gen_case(seed, tier, index=0):
             e["root_opt"] = ["--root", rng.pick([".", "$ROOT"])]
         if rng.chance(0.2):
             e["short_io"] = rng.pick([3, 64])
+        if world.get("nofile"):
+            e["nofile"] = world["nofile"]
         ro = e.pop("root_opt", [])
         if rng.chance(0.5):
             e["argv"] = ro + ["--no-multiprocessing", "lint", "--json"]
@@ -432,7 +463,7 @@ def _F_of(step, rec=None):
 # ---- the model --------------------------------------------------------------------------------
 def expected(case, F_paths):
     """What lint must report for this abstract world when the files in F_paths cannot be read."""
-    present = {f["path"] for f in case["world"]["files"]}
+    present = _present(case)
     ents = [e for e in case["entries"] if e["path"] in present]
     for e in ents:
         if e["kind"] in ("dotlicense", "binary") and e["reads"] not in present and e["kind"] == "dotlicense":
@@ -509,8 +540,13 @@ def observed(rec, step=None):
 SHRINK_CONTENT = False  # the model is tied to the rendered headers
 
 
-def _valid(case):
+def _present(case):
     present = {f["path"] for f in case["world"]["files"]}
+    return present | {l["path"] for l in case["world"].get("hardlinks") or [] if l["target"] in present}
+
+
+def _valid(case):
+    present = _present(case)
     for e in case["entries"]:
         if e["path"] not in present:
             continue
